@@ -1,6 +1,8 @@
 import Driver.C01
 import Model.MuxPipe
 import Model.PoolLock
+import Model.MuxExec
+import Model.CtlBeat
 namespace Driver.C06
 open Util
 
@@ -156,6 +158,170 @@ def jrAnswer (proto wr tmo : String) (steps : List String) : String :=
       " ".intercalate (js.out.reverse ++ [";"] ++ outs)
   | _, _, _ => "bad-op"
 
+/-! ### `ex`: the program points of Conn.exec as scheduling points (StreamObserver parks), closing at any of them -/
+
+structure XCall where
+  fate : Char                 -- 'o' the frame is built and written / 'b' the frame builder fails
+  mask : Nat                  -- park at 1: G (id reserved, not registered)  2: R (registered)  4: F (id cleared)
+  parked : Bool
+
+structure XS where
+  st : MuxExec.St
+  calls : List XCall          -- call i is calls[i-1]
+  out : List String           -- reversed
+  zed : Bool                  -- the server has closed the transport (closeWithError(err) begun)
+  term : Bool                 -- the connection is closed and closeWithError is through
+  bad : Option String
+
+def XS.act (xs : XS) (a : MuxExec.Act) (what : String) : XS :=
+  if xs.bad.isSome then xs else
+  match MuxExec.step xs.st a with
+  | some st' => { xs with st := st' }
+  | none => { xs with bad := some s!"model-stuck:{what}" }
+
+def XS.fail (xs : XS) (m : String) : XS := if xs.bad.isSome then xs else { xs with bad := some m }
+
+def XS.setParked (xs : XS) (i : Nat) (p : Bool) : XS :=
+  match xs.calls[i - 1]? with
+  | some c => { xs with calls := xs.calls.set (i - 1) { c with parked := p } }
+  | none => xs
+
+/-- run call i forward to its next park / blocking point / return -/
+def XS.adv : Nat → XS → Nat → Bool → XS
+  | 0, xs, _, _ => xs.fail "model-stuck:fuel"
+  | fuel + 1, xs, i, resume =>
+    if xs.bad.isSome then xs else
+    match xs.calls[i - 1]? with
+    | none => xs.fail "bad-op"
+    | some c =>
+      match xs.st.pc i with
+      | .got _ =>
+          if c.mask % 2 = 1 ∧ ¬ resume then xs.setParked i true
+          else XS.adv fuel (xs.act (.addCall i) "addCall") i false
+      | .reg _ =>
+          if (c.mask / 2) % 2 = 1 ∧ ¬ resume then xs.setParked i true
+          else if c.fate = 'b' then XS.adv fuel (xs.act (.buildFail i) "buildFail") i false
+          else if xs.st.ctxDone then xs.act (.writeFailed i) "writeFailed"
+          else xs.act (.wrote i) "wrote"
+      | .nwT _ _ => XS.adv fuel (xs.act (.nwDelete i) "nwDelete") i false
+      | .nwD _ _ => XS.adv fuel (xs.act (.nwClear i) "nwClear") i false
+      | .rel _ _ => XS.adv fuel (xs.act (.release i) "release") i false
+      | .fin _ =>
+          -- StreamFinished runs inside releaseStream (the harness's observer does not park on a closed connection)
+          if (c.mask / 4) % 2 = 1 ∧ ¬ resume ∧ ¬ xs.st.closed then xs.setParked i true
+          else xs.act (.finish i) "finish"
+      | _ => xs
+
+def xWaiting (xs : XS) : List Nat :=
+  (List.range xs.calls.length).filterMap fun k =>
+    match xs.st.pc (k + 1) with
+    | .waiting _ => some (k + 1)
+    | _ => none
+
+def lowestFree (st : MuxExec.St) : Nat :=
+  ((List.range 64).find? (fun s => s ≥ 1 ∧ (st.holder s).isNone)).getD 0
+
+def XS.step (xs : XS) (w : String) : XS :=
+  if xs.bad.isSome then xs else
+  match w.toList with
+  | ['n', f, m] =>
+    if (f ≠ 'o' ∧ f ≠ 'b') ∨ m.toNat < 48 ∨ m.toNat > 55 ∨ xs.calls.length ≥ 40 then xs.fail "bad-op" else
+    let i := xs.calls.length + 1
+    let xs : XS := { xs with calls := xs.calls ++ [({ fate := f, mask := m.toNat - 48, parked := false } : XCall)] }
+    let xs := xs.act (.getStream i (lowestFree xs.st)) "getStream"
+    XS.adv 12 xs i false
+  | 'g' :: _ =>
+    match numTail w with
+    | some i =>
+      match xs.calls[i - 1]? with
+      | some c => if i = 0 then xs.fail "bad-op" else if c.parked then XS.adv 12 (xs.setParked i false) i true else xs
+      | none => xs.fail "bad-op"
+    | none => xs.fail "bad-op"
+  | 'd' :: _ =>
+    match numTail w with
+    | some i =>
+      if i = 0 ∨ i > xs.calls.length ∨ xs.st.closed then xs.fail "bad-op" else
+      match (List.range 64).find? (fun s => xs.st.wire s = .pending i) with
+      | some s =>
+        let xs := (xs.act (.answer s) "answer").act (.deliver s) "deliver"
+        XS.adv 12 xs i false
+      | none => xs.fail "bad-op"
+    | none => xs.fail "bad-op"
+  | 'c' :: _ =>
+    match numTail w with
+    | some i =>
+      if i = 0 ∨ i > xs.calls.length ∨ xs.zed then xs.fail "bad-op" else
+      match xs.st.pc i, xs.calls[i - 1]? with
+      | .waiting _, some c => if (c.mask / 4) % 2 = 1 then xs.fail "bad-op" else xs.act (.cancel i) "cancel"
+      | _, _ => xs.fail "bad-op"
+    | none => xs.fail "bad-op"
+  | ['a'] => if xs.st.closed then xs.fail "bad-op" else { xs with out := s!"a={MuxExec.held xs.st 63}" :: xs.out }
+  | ['K'] =>
+    if xs.st.closed then xs.fail "bad-op" else
+    let xs := (xs.act (.closeBegin false) "closeBegin").act .closeFinish "closeFinish"
+    let xs := (xWaiting xs).foldl (fun xs c => xs.act (.connDone c) "connDone") xs
+    { xs with term := true }
+  | ['Z'] =>
+    if xs.st.closed then xs.fail "bad-op" else
+    { xs.act (.closeBegin true) "closeBegin" with zed := true }
+  | ['e'] =>
+    if ¬ xs.zed ∨ xs.term then xs.fail "bad-op" else
+    let xs := xs.st.snap.foldl (fun xs c => xs.act (.closeDeliver c) "closeDeliver") xs
+    let xs := xs.act .closeFinish "closeFinish"
+    let xs := (xWaiting xs).foldl (fun xs c => xs.act (.connDone c) "connDone") xs
+    { xs with term := true }
+  | _ => xs.fail "bad-op"
+
+def XS.outcome (xs : XS) (i : Nat) (c : XCall) : String :=
+  if c.parked then "P" else
+  match xs.st.pc i with
+  | .done (.resp o) => if o = i then "R" else "R!not-its-own-response"
+  | .done .ctxErr => "C"
+  | .done .timeout => "T"
+  | .done .connClosed => "X"
+  | .done .connErr => "E"
+  | .done .writeErr => "E"
+  | .done .buildErr => "B"
+  | .done .inUse => "U"
+  | .done .noStreams => "N"
+  | .waiting _ => "W"
+  | _ => "?"
+
+def exAnswer (proto wr : String) (steps : List String) : String :=
+  match proto.toNat?, wr.toNat? with
+  | some p, some _ =>
+    if p < 2 ∨ p > 4 then "bad-op" else
+    let cap := if p ≤ 2 then 128 else 32768
+    let xs0 : XS := { st := MuxExec.init cap, calls := [], out := [], zed := false, term := false, bad := none }
+    let xs := steps.foldl XS.step xs0
+    match xs.bad with
+    | some b => b
+    | none =>
+      let outs := (List.range xs.calls.length).map fun k =>
+        match xs.calls[k]? with
+        | some c => xs.outcome (k + 1) c
+        | none => "?"
+      let flags := if xs.st.bad then ["double-or-foreign-release"] else []
+      " ".intercalate (xs.out.reverse ++ flags ++ [";"] ++ outs)
+  | _, _ => "bad-op"
+
+/-! ### `hb`: controlConn.close() against the heartbeat loop -/
+
+def hbAnswer (proto when fate : String) : String :=
+  match proto.toNat?, when.toNat? with
+  | some p, some w =>
+    if p < 2 ∨ p > 4 ∨ w > 1 ∨ ¬ (["s", "e", "n", "z"].contains fate) then "bad-op" else
+    let beat : List CtlBeat.Act := if fate = "s" then [.beatOk] else [.beatFail, .reconnect]
+    let acts : List CtlBeat.Act :=
+      if w = 0 then [.hbStart, .closeCas, .takeQuit, .closeConn]
+      else [.hbStart, .timer, .closeCas] ++ beat ++ [.takeQuit, .closeConn]
+    match CtlBeat.run CtlBeat.init acts with
+    | some st =>
+      if st.cl = .done ∧ st.hb = .exited then s!"ret hb=exited conn={if st.connClosed then "closed" else "open"}"
+      else "closer-stuck"
+    | none => "closer-stuck"
+  | _, _ => "bad-op"
+
 /-! ### `cf` / `cfk`: closing over transports whose Close() reports an error -/
 
 def cfAnswer (kf : Bool) (ws : List String) : String :=
@@ -196,6 +362,8 @@ def cfAnswer (kf : Bool) (ws : List String) : String :=
 def step (s : S) (ws : List String) : S × String :=
   match ws with
   | "jr" :: proto :: wr :: tmo :: steps => (s, jrAnswer proto wr tmo steps)
+  | "ex" :: proto :: wr :: steps => (s, exAnswer proto wr steps)
+  | ["hb", proto, when, fate] => (s, hbAnswer proto when fate)
   | "cf" :: rest => (s, cfAnswer false rest)
   | "cfk" :: rest => (s, cfAnswer true rest)
   | _ => Driver.C01.step s ws
